@@ -81,8 +81,6 @@ SjisName(name) == Concat([k \in 1..Len(name) |-> SjisOf(name[k])])
 Utf8Name(name) == Concat([k \in 1..Len(name) |-> Utf8Of(name[k])])
 
 \* ------------------------------------------------------------------ values
-\* power-of-two sides from 8 up (the statement), as far as the u16 size fields of the containers reach usefully
-TexSides == {8, 16, 32, 64, 128, 256, 512, 1024}
 IsTex3DS(t) ==
   /\ t.fmt \in Formats3DS
   /\ t.w \in TexSides /\ t.h \in TexSides
